@@ -10,7 +10,7 @@
 From Coq Require Import Lia List Permutation.
 From Chess Require Import Model.Text Spec.Rules Spec.FenSpec Spec.HashSpec Spec.EvalSpec Spec.Notation.
 From Chess Require Import Proofs.Grid Proofs.Inv Proofs.Abs Proofs.GenOk Proofs.PushPop Proofs.PushPop2 Proofs.Reach
-  Proofs.TopCore Proofs.LegalMoves.
+  Proofs.TextProofs Proofs.TextGen Proofs.TopCore Proofs.LegalMoves.
 Import ListNotations.
 Open Scope Z_scope.
 
@@ -38,6 +38,26 @@ Proof.
   rewrite Ha in P'. exact (Permutation_trans P' (Permutation_sym P)).
 Qed.
 Print Assumptions fen_roundtrip_moves.
+
+(* without the buffer premise on the re-imported game: re-import adds no move and repeats none (soundness of the checked
+   list on g' needs no Fits; completeness is only used on g) *)
+Theorem fen_roundtrip_moves_incl g g' :
+  legal_reachable g -> Fits g -> sane (abs g) = true -> import (fen g) = Ok g' ->
+  incl (map uci (checked_moves g')) (map uci (checked_moves g)) /\ NoDup (map uci (checked_moves g')).
+Proof.
+  intros Hr HF Hs Hi.
+  destruct (reimport_legal_reachable g g' Hr Hs Hi) as (Hr' & Ha & _).
+  pose proof (legal_reachable_legalinv g Hr) as HL. pose proof (legal_reachable_legalinv g' Hr') as HL'.
+  split; [|now apply C01_checked_nodup].
+  intros x Hx. apply in_map_iff in Hx. destruct Hx as (m & <- & Hin).
+  pose proof (checked_sound g' m HL' Hin) as Hl. rewrite Ha in Hl.
+  destruct (checked_complete g (abs_move m) HL HF Hl) as (m0 & Hin0 & Hm0).
+  apply in_map_iff. exists m0. split; [|exact Hin0].
+  rewrite (generated_uci_is_standard g true m0 (LegalInv_repinv g HL) Hin0).
+  rewrite (generated_uci_is_standard g' true m (LegalInv_repinv g' HL') Hin).
+  now rewrite Hm0.
+Qed.
+Print Assumptions fen_roundtrip_moves_incl.
 
 (* the exported text always re-imports (no hypothesis beyond legal play), so the theorem's import premise is met *)
 Lemma fen_reimports g : legal_reachable g -> exists g', import (fen g) = Ok g'.
